@@ -184,6 +184,22 @@ pub fn programs(thorough: bool) -> Vec<Cmd> {
             p(0),
         ]));
     }
+    // T9: a child stops itself (SIGSTOP) and is continued from outside while the shell, which does
+    // not control jobs, is waiting for it: the stop is not a termination
+    {
+        let st = Cmd::StopSelf;
+        out.push(seq(vec![Cmd::Subshell(bx(seq(vec![st.clone(), p(0), Cmd::S(42)]))), p(0)]));
+        out.push(seq(vec![Cmd::Subshell(bx(seq(vec![p(0), st.clone(), Cmd::Exit(Some(7))]))), p(0)]));
+        out.push(seq(vec![Cmd::Pipe(vec![seq(vec![st.clone(), Cmd::S(2)]), Cmd::S(3)]), p(0)]));
+        out.push(seq(vec![Cmd::Pipe(vec![Cmd::S(2), seq(vec![st.clone(), Cmd::S(3)])]), p(0)]));
+        out.push(seq(vec![Cmd::SetPipefail(true), Cmd::Pipe(vec![seq(vec![st.clone(), Cmd::S(2)]), seq(vec![st.clone(), Cmd::S(0)])]), p(0)]));
+        out.push(seq(vec![Cmd::Pipe(vec![seq(vec![st.clone(), Cmd::Gen(600)]), Cmd::Sink]), p(0)]));
+        out.push(seq(vec![Cmd::Subst(bx(seq(vec![st.clone(), p(0), Cmd::Exit(Some(5))]))), p(0)]));
+        out.push(seq(vec![Cmd::Async(bx(seq(vec![st.clone(), Cmd::S(6)]))), Cmd::WaitLast, p(0)]));
+        out.push(seq(vec![Cmd::Async(bx(seq(vec![st.clone(), Cmd::S(6)]))), Cmd::WaitAll, p(0)]));
+        out.push(seq(vec![Cmd::Subshell(bx(Cmd::Subshell(bx(seq(vec![st.clone(), Cmd::S(9)]))))), p(0)]));
+        out.push(seq(vec![Cmd::Subshell(bx(seq(vec![st.clone(), st.clone(), Cmd::S(8)]))), p(0)]));
+    }
     // T11: background job concurrent with a foreground pipeline
     for a in atoms.iter().take(5) {
         for pl in pipes.iter().step_by(7) {
@@ -292,7 +308,8 @@ pub fn replay(case: &serde_json::Value) -> i32 {
         .map(|v| v.as_u64().unwrap() as usize)
         .collect();
     let taps = case["taps"].as_bool().unwrap_or(false);
-    let setup = Setup::script(script);
+    let mut setup = Setup::script(script);
+    setup.auto_continue = script.contains("stopself");
     let opts = RunOpts { prefix, taps, ..Default::default() };
     let a = run_once(&setup, &opts);
     let b = run_once(&setup, &opts);
@@ -331,7 +348,8 @@ pub fn run(tier: Tier) -> i32 {
             }
         };
         let script = refsh::print(prog, Style::default());
-        let setup = Setup::script(&script);
+        let mut setup = Setup::script(&script);
+        setup.auto_continue = script.contains("stopself");
         // canary: the default schedule twice must give identical observations
         let a = run_once(&setup, &RunOpts::default());
         let b = run_once(&setup, &RunOpts::default());
